@@ -115,6 +115,64 @@ class OutstationProp(Prop):
             out.append(l)
         return out
 
+    # ---- second model pass: the composed outstation model (engine `ofull`, coq/Outstation/Full.v) ----
+    # The composed model computes the parser digest (App/Grammar.v) and the database answers
+    # (Outstation/Database.v) itself: its input is the ORIGINAL script, its output the whole trace of the
+    # implementation including the `op`, `> digest`, `> <answer>`, `> cb ...`, `> txparse` and `end` lines.
+    extra_what = "composed outstation model `ofull`: Grammar digest + Session + Database, nothing recorded"
+    OFULL_OPS = {"rx": 4, "sleep": 2, "add": 4, "update": 6, "handler": 3, "appiin": 2, "disconnect": 1}
+    OFULL_ADD_TYPES = ("binary", "double", "bos", "counter", "frozen", "analog", "aos", "octet")
+    OFULL_UPDATE_TYPES = ("binary", "counter", "analog", "octet")     # what harness/outstation.rs implements
+
+    def extra_model_script(self, case, impl):
+        """the script for engine `ofull`, or None when the composed model does not cover the case:
+        another engine; meta impl_only (huge fragments: the extracted session model needs minutes); the link
+        keep-alive timer (keepalive_ms, not in Session.v); an op or point type outside the harness's
+        vocabulary; the implementation panicked or stalled (reported by the oracle, nothing to compare).
+        READ requests for device attributes (g0) or analog dead-bands (g34) are not in Database.v either: the
+        model marks such a run itself (`model-unmodelled`, see extra_canon)."""
+        lines = [l for l in case.script.split("\n") if l.strip()]
+        head = lines[0].split()
+        if len(head) < 3 or head[2] != "outstation" or case.meta.get("impl_only"):
+            return None
+        cfg = dict(kv.split("=", 1) for kv in head[3:] if "=" in kv)
+        if cfg.get("keepalive_ms", "0") != "0":
+            return None
+        if any(l.startswith("panic") or l.startswith("harness-died") or l == "missing" for l in impl):
+            return None
+        for l in lines[1:]:
+            t = l.split()
+            if t == ["E"]:
+                continue
+            if self.OFULL_OPS.get(t[0]) != len(t):
+                return None
+            if t[0] == "add" and t[1] not in self.OFULL_ADD_TYPES:
+                return None
+            if t[0] == "update" and t[1] not in self.OFULL_UPDATE_TYPES:
+                return None
+        return "\n".join([" ".join(head[:2] + ["ofull"] + head[3:])] + lines[1:])
+
+    def extra_canon(self, lines, side):
+        """both sides verbatim except: the text after `session-end`; unsolicited probes that found nothing
+        (`db write_unsol` answered `> unsol 0 -`: their number depends on tokio's select!, see canon).
+        None = the model declared the script outside its domain."""
+        out = []
+        ls = list(lines)
+        for i, l in enumerate(ls):
+            t = l.split()
+            if "model-unmodelled" in t:
+                return None
+            if len(t) >= 2 and t[1].startswith("session-end"):
+                out.append(t[0] + " session-end"); continue
+            if len(t) >= 3 and t[1] == "db" and t[2] == "write_unsol":
+                nxt = ls[i + 1].split() if i + 1 < len(ls) else []
+                if len(nxt) >= 4 and nxt[1] == ">" and nxt[2] == "unsol" and nxt[3] == "0":
+                    continue
+            if len(t) >= 4 and t[1] == ">" and t[2] == "unsol" and t[3] == "0":
+                continue
+            out.append(l)
+        return out
+
     # ---- generator ---------------------------------------------------------------------------
     def base_cfg(self, rng, unsol=None):
         cfg = {"unsol": rng.below(2) if unsol is None else unsol,
